@@ -258,6 +258,23 @@ def oracle_layer(ctx, lk, conn, entries, options):
                 if rows3 != [tuple(r) for r in rows]:
                     ctx.record_violation('nested-select-disturbs-clauses', '%s: %d rows, %d without the condition' % (q3, len(rows3), len(rows)),
                                          payload={'query': q3})
+        # ... and the clauses do not reach into a nested SELECT that has a FROM clause of its own
+        if frm and not ctx.stop():
+            accounts = sorted({r[0] for r in conn.execute('SELECT account FROM year >= 1900').fetchall()})
+            lit = '(' + ', '.join("'%s'" % a for a in accounts) + (',' if len(accounts) == 1 else '') + ')'
+            for op in ('IN', 'NOT IN'):
+                qa = 'SELECT %s FROM %s WHERE account %s (SELECT account FROM year >= 1900)' % (cols, from_text(o, c, clear, None), op)
+                qb = 'SELECT %s FROM %s WHERE account %s %s' % (cols, from_text(o, c, clear, None), op, lit)
+                try:
+                    ra = [tuple(r) for r in conn.execute(qa).fetchall()]
+                    rb = [tuple(r) for r in conn.execute(qb).fetchall()]
+                except Exception as exc:  # noqa: BLE001
+                    ctx.record_violation('nested-select-raises-%s' % type(exc).__name__, '%s: %r' % (qa, exc), payload={'query': qa})
+                    continue
+                ctx.count('oracle:nested-select')
+                if ra != rb:
+                    ctx.record_violation('clauses-reach-nested-select', '%s: %d rows, %d with the subquery written out as a list' % (qa, len(ra), len(rb)),
+                                         payload={'query': qa})
         # the four statements prepare the same entries
         if frm:
             want_e = [id(x) if x in entries else repr(x)[:200] for x in prepared(conn, 'SELECT account FROM ' + frm)]
